@@ -65,6 +65,10 @@ pub struct Responder {
     pub tid_counter: u32,
     /// also list the requester itself among the closest nodes
     pub name_requester: bool,
+    /// behaviour for get_peers / announce_peer only (bootstrap traffic is answered normally)
+    pub search_mode: Option<Mode>,
+    /// node list used for find_node answers when different from `node_list`
+    pub find_node_list: Option<NodeList>,
 }
 
 impl Responder {
@@ -85,6 +89,8 @@ impl Responder {
             announced: vec![],
             tid_counter: 0,
             name_requester: false,
+            search_mode: None,
+            find_node_list: None,
         }
     }
 
@@ -98,7 +104,11 @@ impl Responder {
     }
 
     fn nodes_for(&self, target: &[u8; 20], from: SocketAddr) -> Vec<([u8; 20], SocketAddr)> {
-        match &self.node_list {
+        self.nodes_by(&self.node_list, target, from)
+    }
+
+    fn nodes_by(&self, list: &NodeList, target: &[u8; 20], from: SocketAddr) -> Vec<([u8; 20], SocketAddr)> {
+        match list {
             NodeList::None => vec![],
             NodeList::Fixed(v) => v.clone(),
             NodeList::Closest8 => {
@@ -151,7 +161,11 @@ impl Peer for Responder {
         if !p.valid || p.y != 'q' || !self.is_up(ctx.now_ms) {
             return;
         }
-        match self.mode {
+        let mode = match (&self.search_mode, p.q.as_str()) {
+            (Some(m), "get_peers") | (Some(m), "announce_peer") => m.clone(),
+            _ => self.mode.clone(),
+        };
+        match mode {
             Mode::Silent => return,
             Mode::ErrorReply => {
                 ctx.out.push((from, krpc::error(&p.tid, 201, "scripted error")));
@@ -171,7 +185,8 @@ impl Peer for Responder {
             "ping" => krpc::response(&p.tid, &self.id, None, None, &[]),
             "find_node" => {
                 let t = p.target.unwrap_or([0; 20]);
-                krpc::response(&p.tid, &self.id, None, None, &self.nodes_for(&t, from))
+                let list = self.find_node_list.as_ref().unwrap_or(&self.node_list);
+                krpc::response(&p.tid, &self.id, None, None, &self.nodes_by(list, &t, from))
             }
             "get_peers" => {
                 let t = p.target.unwrap_or([0; 20]);
